@@ -75,6 +75,26 @@ def check_step(ctx, info, doc, step, res_doc, origin):
                           dict(replay, pos=i + 1, mapped=j, token=list(tok), found=list(new[j - 1]) if 1 <= j <= len(new) else None))
             return
 
+    # the deleted flag of map_result on both sides: true iff the step replaced the token on the asked side of the position
+    # (Props/C03.lean: step_deleted_iff, replace_deleted_rule, replaceAround_deleted_rule); on the right side only for maps
+    # where no range ends at the start of a range with a non-empty old side (deleted_right_needs_noTouch)
+    touch_free = all(ranges[j + 1] <= 0 or ranges[i] + ranges[i + 1] != ranges[j]
+                     for i in range(0, len(ranges), 3) for j in range(0, len(ranges), 3))
+    for a in (-1, 1):
+        if a > 0 and not touch_free:
+            ctx.count("deleted_flag_right_touching_ranges_skipped")
+            continue
+        for p in range(len(old) + 1):
+            r = m.map_result(p, a)
+            ctx.count("deleted_flag_positions")
+            if bool(r.deleted):
+                ctx.count("deleted_flag_true")
+            if bool(r.deleted) != ((p - 1 if a < 0 else p) in covered) or r.pos != m.map(p, a):
+                ctx.violation("deleted-flag", "map_result(pos, assoc).deleted of a step's map is not 'the step replaced the token on the "
+                              "asked side of the position' (or map_result and map disagree on the position)",
+                              dict(replay, pos=p, assoc=a, deleted=bool(r.deleted), result_pos=r.pos, mapped=m.map(p, a)))
+                return
+
 
 def _same_tok(a, b, exact):
     """identity when only replace-family steps were recorded; structure and text otherwise (markup steps change markup)"""
